@@ -81,6 +81,15 @@ def cross_call_state(m) -> list[tuple]:
                     for x in ([r_.value.body, r_.value.orelse] if isinstance(r_.value, ast.IfExp) else [r_.value]):
                         if isinstance(x, ast.Name) and x.id in shared and x.id not in loc:
                             out.append((f, r_, x.id, f"`{ast.unparse(r_)[:50]}` hands out the module-level object `{x.id}` (`{ast.unparse(shared[x.id])[:50]}`), whose mutable payload is then shared by every caller"))
+        # a closure that writes a `nonlocal` of its factory and is handed out by the factory keeps that value from one of
+        # its calls to the next: an object built once (a cooling schedule, a neighbourhood) and passed to two solver runs
+        # makes the second run start where the first one ended
+        if f.parent is not None:
+            nl = {nm for x in f.own_nodes() if isinstance(x, ast.Nonlocal) for nm in x.names}
+            if nl and any(isinstance(x, ast.Return) and isinstance(x.value, ast.Name) and x.value.id == f.name for x in f.parent.own_nodes()):
+                wr = [x for x in f.own_nodes() if isinstance(x, (ast.Assign, ast.AugAssign)) and any(isinstance(t, ast.Name) and t.id in nl for t in (x.targets if isinstance(x, ast.Assign) else [x.target]))]
+                if wr:
+                    out.append((f, wr[0], sorted(nl)[0], f"`{f.parent.name}` returns the closure `{f.name}`, which rebinds `{sorted(nl)[0]}` of the factory's frame: the returned object carries state from call to call"))
         for d in f.node.decorator_list:
             dn = ast.unparse(d.func if isinstance(d, ast.Call) else d)
             if dn in CACHE_DECORATORS:
@@ -320,6 +329,18 @@ def generic_sweeps(ctx: Ctx, stutter: bool = True, skip_stutter_modules: tuple =
         if rel_ in {m.rel for m in mods} and _opposite(an, p_):
             n_sel += 1
             ctx.ob(g + "8", "R40 ARGUMENT-SELECTION", None, f"`{an}` is not passed where `{hname}` expects `{p_}`", False, f"call of the helper `{hname}` at line {ln} (analysed inlined): the argument's name and the parameter's name denote opposite things (rows/columns, lower/upper, source/target ...), which usually means two arguments were swapped", rel=rel_, fname=hname)
+    # R49: `f(a=b, b=a)` - a keyword receives the variable named like another keyword of the same call
+    for m in mods:
+        for q in sorted(m.funcs):
+            f = m.funcs[q]
+            for c in f.own_nodes():
+                if not isinstance(c, ast.Call) or len(c.keywords) < 2:
+                    continue
+                kws = {k.arg for k in c.keywords if k.arg}
+                for k in c.keywords:
+                    if k.arg and isinstance(k.value, ast.Name) and k.value.id != k.arg and k.value.id in kws:
+                        n_sel += 1
+                        ctx.ob(g + "8", "R49 KEYWORD-CROSSING", f, f"keyword `{k.arg}` of `{ast.unparse(c.func)[:30]}(...)` is not given the variable named like another keyword of the same call", False, f"`{k.arg}={k.value.id}` while `{k.value.id}=` is passed too: two keyword arguments were crossed", node=c)
     # R42: the caller has a variable named exactly like the callee's parameter and hands over another of its own
     # parameters instead (`_most_fractional(x_vals, gap_tol)` where both `eps` and `gap_tol` are in scope)
     for m in mods:
